@@ -30,4 +30,5 @@ bin="${VERIF_BIN:-$ROOT/bin}/$lc$(echo "$sub" | tr -d /)"
 if ! go build -tags verif -overlay "$T/gen/overlay.json" -o "$bin" "./props/$lc$sub" 2> "$T/build.log"; then
   echo "HARNESS-ERROR build of $id against the instrumented tree failed"; head -40 "$T/build.log"; exit 2
 fi
+[ -n "${VERIF_BUILD_ONLY:-}" ] && exit 0
 "$bin" -tier "$tier" "$@"
